@@ -47,25 +47,39 @@ def case(draw, tier):
             "schema": draw(st.sampled_from(["none", "none", "temp-shadow"])),
             # the exception type of the injected failure, per crash point (a loader may catch TypeError, IndexError ... for
             # purposes of its own; a failure of the source must still surface and leave nothing behind)
-            "fault_kinds": [draw(st.sampled_from(BOOM_KINDS)) for _ in range(nn + 2)]}
+            "fault_kinds": [draw(st.sampled_from(BOOM_KINDS)) for _ in range(nn + 2)],
+            # the database table declares its columns in another order than the petl table's header
+            "colperm": draw(st.permutations(list(range(nf)))) if draw(st.booleans()) else None,
+            "fromdb_handle": draw(st.sampled_from(["connection", "filename", "cursor", "cursorfn"]))}
 
 
 def _q(n):
     return '"%s"' % n.replace('"', '""')
 
 
-def _mkdb(path, hdr, prior):
+_COLS = {"hdr": None}   # header of the table under test: the harness reads and writes columns BY NAME, in this order
+
+
+def _mkdb(path, hdr, prior, colperm=None):
+    """The table's columns may be declared in another order than the header of the petl table that is loaded into it:
+    a load goes by field NAME (INSERT INTO t (names...)), never by position."""
+    _COLS["hdr"] = list(hdr)
+    order = [hdr[i] for i in colperm] if colperm and sorted(colperm) == list(range(len(hdr))) else list(hdr)
     con = sqlite3.connect(path)
-    con.execute("CREATE TABLE t (%s)" % ", ".join(_q(n) for n in hdr))
-    con.executemany("INSERT INTO t VALUES (%s)" % ", ".join("?" * len(hdr)), [tuple(r) for r in prior])
+    con.execute("CREATE TABLE t (%s)" % ", ".join(_q(n) for n in order))
+    con.executemany("INSERT INTO t (%s) VALUES (%s)" % (", ".join(_q(n) for n in hdr), ", ".join("?" * len(hdr))), [tuple(r) for r in prior])
     con.commit()
     con.close()
+
+
+def _select():
+    return "SELECT %s FROM t ORDER BY rowid" % ", ".join(_q(n) for n in _COLS["hdr"])
 
 
 def _read(path):
     con = sqlite3.connect(path)
     try:
-        return [tuple(r) for r in con.execute("SELECT * FROM t ORDER BY rowid")]
+        return [tuple(r) for r in con.execute(_select())]
     finally:
         con.close()
 
@@ -86,7 +100,7 @@ def check(case, ctx):
     for at in case.get("faults") or ([None] + list(range(0, n + 2))):
         ctx.labels.append("loads")
         path = os.path.join(tmp, "db%s.sqlite" % ("ok" if at is None else at))
-        _mkdb(path, hdr, prior)
+        _mkdb(path, hdr, prior, case.get("colperm"))
         kinds = case.get("fault_kinds")
         kind = kinds[at % len(kinds)] if (kinds and at is not None) else "plain"
         if at is not None:
@@ -154,9 +168,18 @@ def check(case, ctx):
                 if seen is not None:
                     if not codec.strict_eq(seen, exp):
                         return Fail("%s/%s/roundtrip" % (op, handle), "%s wrote %r over %r; a fresh connection reads %r, expected %r" % (op, new, prior, seen, exp))
-                    back = [tuple(r) for r in etl.fromdb(sqlite3.connect(path), "SELECT * FROM t ORDER BY rowid")]
-                    if back[:1] != [tuple(hdr)] or not codec.strict_eq(back[1:], exp):
-                        return Fail("%s/%s/fromdb" % (op, handle), "fromdb returned %r, expected %r" % (back, [tuple(hdr)] + exp))
+                    # fromdb through each kind of handle it documents, iterated twice
+                    rcon = sqlite3.connect(path)
+                    fh = case.get("fromdb_handle", "connection")
+                    rdbo = path if fh == "filename" else rcon if fh == "connection" else rcon.cursor() if fh == "cursor" else (lambda: rcon.cursor())
+                    try:
+                        fv = etl.fromdb(rdbo, _select())
+                        for pno in (1, 2):
+                            back = [tuple(r) for r in fv]
+                            if back[:1] != [tuple(hdr)] or not codec.strict_eq(back[1:], exp):
+                                return Fail("%s/%s/fromdb" % (op, handle), "fromdb via %s, pass %d, returned %r, expected %r" % (fh, pno, back, [tuple(hdr)] + exp))
+                    finally:
+                        rcon.close()
         finally:
             if cur is not None:
                 try:
